@@ -86,8 +86,21 @@ fn c03() -> Outcome {
         if n == 3 { note(|| format!("random: instance with variables {:?}, fix {fixed:?} then {fixed2:?}, evaluate the rest {rest:?}", i.decision_variables.iter().map(|v| v.id).collect::<Vec<_>>())); }
         let (want, _) = match i.evaluate(&st(&s)) { Ok(x) => x, Err(e) => fail!(n, "reference evaluation of a valid instance at an in-bound state failed: {e}") };
         let mut j = i.clone();
-        if let Err(e) = j.partial_evaluate(&st(&fixed)) { fail!(n, "Instance::partial_evaluate failed: {e}"); }
-        if let Err(e) = j.partial_evaluate(&st(&fixed2)) { fail!(n, "second Instance::partial_evaluate failed: {e}"); }
+        // "the returned ID set contains only fixed variables that actually occurred" (in some function of the instance, before the call)
+        let occurring = |x: &Instance| -> BTreeSet<u64> {
+            let mut o: BTreeSet<u64> = BTreeSet::new();
+            if let Some(f) = x.objective.as_ref() { o.extend(ref_ids(f)); }
+            for c in &x.constraints { if let Some(f) = c.function.as_ref() { o.extend(ref_ids(f)); } }
+            for rc in &x.removed_constraints { if let Some(c) = rc.constraint.as_ref() { if let Some(f) = c.function.as_ref() { o.extend(ref_ids(f)); } } }
+            for (_, f) in &x.decision_variable_dependency { o.extend(ref_ids(f)); }
+            o
+        };
+        let occ1 = occurring(&j);
+        let ids1 = match j.partial_evaluate(&st(&fixed)) { Ok(x) => x, Err(e) => fail!(n, "Instance::partial_evaluate failed: {e}") };
+        if let Some(bad) = ids1.iter().find(|id| !fixed.contains_key(id) || !occ1.contains(id)) { fail!(n, "Instance::partial_evaluate({fixed:?}) returned id {bad}, which is not a fixed variable occurring in a function of the instance (occurring: {occ1:?}, returned: {ids1:?})"); }
+        let occ2 = occurring(&j);
+        let ids2 = match j.partial_evaluate(&st(&fixed2)) { Ok(x) => x, Err(e) => fail!(n, "second Instance::partial_evaluate failed: {e}") };
+        if let Some(bad) = ids2.iter().find(|id| !fixed2.contains_key(id) || !occ2.contains(id)) { fail!(n, "second Instance::partial_evaluate({fixed2:?}) returned id {bad}, which is not a fixed variable still occurring in a function of the instance (occurring: {occ2:?}, returned: {ids2:?})"); }
         // "the partially evaluated object no longer mentions any fixed variable": objective, active and removed constraints, and the dependency functions
         {
             let mut fs: Vec<(String, &Function)> = vec![];
